@@ -203,6 +203,22 @@ func runScenario(si int, s Scenario) scenResult {
 	if s.MaxInvoke > 0 && res.midFlight > int(s.MaxInvoke) {
 		res.queued = res.midFlight - int(s.MaxInvoke)
 	}
+	// third measurement, independent of the server's own counter: requests written at least
+	// 120 ms before Shutdown on a connection whose receive loop cannot have been held up (the
+	// pool's queue has room for every request of the scenario) have been read
+	total := 0
+	for _, cn := range s.Conns {
+		total += len(cn.SleepMs)
+	}
+	writtenEarly := make([]bool, len(s.Conns))
+	if s.ShutdownMs >= 120 && (s.MaxInvoke == 0 || s.QueueCap >= total) {
+		for i := range s.Conns {
+			if gates[i] == nil && obligated[i] < len(s.Conns[i].SleepMs) {
+				writtenEarly[i] = true
+				obligated[i] = len(s.Conns[i].SleepMs)
+			}
+		}
+	}
 	// second, independent measurement of "already read": a request whose handler had been
 	// entered before Shutdown was called has certainly been read (this does not depend on the
 	// server's own counter)
@@ -321,7 +337,11 @@ func runScenario(si int, s Scenario) scenResult {
 		for k := 0; k < obligated[i] && !expired; k++ {
 			id := int32(1000*(i+1) + k)
 			if answered[id] != 1 {
-				res.f = stat.Failf("request-not-answered", "scenario %d (pool %d, queue cap %d, shutdown after %d ms) conn %d: request #%d (handler %d ms) had been read by the server before Shutdown but received %d replies; %d of %d requests were obligated, %d replies arrived, connection closed by server: %v, Shutdown took %v", si, s.MaxInvoke, s.QueueCap, s.ShutdownMs, i, k, s.Conns[i].SleepMs[k], answered[id], obligated[i], len(s.Conns[i].SleepMs), len(answered), closed, took.Round(10*time.Millisecond))
+				sig := "request-not-answered"
+				if writtenEarly[i] {
+					sig = "request-not-answered-written-early" // rests on the 120 ms head start: confirmed by re-runs
+				}
+				res.f = stat.Failf(sig, "scenario %d (pool %d, queue cap %d, shutdown after %d ms) conn %d: request #%d (handler %d ms) had been read by the server before Shutdown but received %d replies; %d of %d requests were obligated, %d replies arrived, connection closed by server: %v, Shutdown took %v", si, s.MaxInvoke, s.QueueCap, s.ShutdownMs, i, k, s.Conns[i].SleepMs[k], answered[id], obligated[i], len(s.Conns[i].SleepMs), len(answered), closed, took.Round(10*time.Millisecond))
 				return res
 			}
 		}
@@ -376,7 +396,7 @@ func run(c Case) (*stat.Failure, bool) {
 		return nil, nt
 	}
 	switch f.Sig {
-	case "shutdown-hangs", "shutdown-too-slow", "shutdown-waits-for-context":
+	case "shutdown-hangs", "shutdown-too-slow", "shutdown-waits-for-context", "request-not-answered-written-early":
 		for i := 0; i < 2; i++ {
 			time.Sleep(500 * time.Millisecond)
 			g, _ := runOnce(c)
@@ -385,7 +405,7 @@ func run(c Case) (*stat.Failure, bool) {
 				return nil, nt
 			}
 			switch g.Sig {
-			case "shutdown-hangs", "shutdown-too-slow", "shutdown-waits-for-context":
+			case "shutdown-hangs", "shutdown-too-slow", "shutdown-waits-for-context", "request-not-answered-written-early":
 			default:
 				return g, nt
 			}
@@ -441,6 +461,12 @@ var pinnedCases = map[string]Case{
 	"write-timeout-configured": {Scenarios: []Scenario{
 		{MaxInvoke: 0, QueueCap: 64, ShutdownMs: 450, CtxTimeoutS: 6, WriteTimeoutMs: 200, Conns: []Conn{{SleepMs: []int{0}, BigReply: -1}, {SleepMs: []int{0, 900}, BigReply: -1}}},
 		{MaxInvoke: 4, QueueCap: 64, ShutdownMs: 450, CtxTimeoutS: 6, WriteTimeoutMs: 200, Conns: []Conn{{SleepMs: []int{0, 0}, BigReply: -1}}},
+	}},
+	// every worker is busy with another connection's request: what was read from this one is
+	// waiting in the pool's queue when the shutdown begins
+	"queued-behind-another-connection": {Scenarios: []Scenario{
+		{MaxInvoke: 1, QueueCap: 64, ShutdownMs: 250, CtxTimeoutS: 8, Conns: []Conn{{SleepMs: []int{1800}, BigReply: -1}, {SleepMs: []int{0}, BigReply: -1}}},
+		{MaxInvoke: 2, QueueCap: 64, ShutdownMs: 120, CtxTimeoutS: 8, Conns: []Conn{{SleepMs: []int{1500}, BigReply: -1}, {SleepMs: []int{1500}, BigReply: -1}, {SleepMs: []int{10, 10}, BigReply: -1}}},
 	}},
 	"deep-queue-with-handle-timeout": {Scenarios: []Scenario{
 		{MaxInvoke: 1, QueueCap: 64, ShutdownMs: 100, CtxTimeoutS: 8, HandleTimeoutMs: 1000, Conns: []Conn{{SleepMs: []int{600, 600, 600, 600, 600, 600}, BigReply: -1}}},
